@@ -30,6 +30,7 @@ PROLOGUE = '''#include <cstdint>
 #include <cstddef>
 #include <cstring>
 extern "C" void vprobe(int id, uint64_t value) noexcept;   // observable #id (recorded by the encoder, no memory effect)
+extern "C" void vcstr(int id, const char* s) noexcept;     // C-string observable #id: the encoder records the pointer and the memory at the call
 #define O(ID, V) vprobe((ID), (uint64_t)(V))
 #define W(NAME) extern "C" uint64_t NAME(unsigned char* p, size_t n, uint64_t a0, uint64_t a1, unsigned char* q, size_t m)
 '''
@@ -77,6 +78,12 @@ class K:
         self.n_forall = 0
         self.ghost = []
         self.q_from_p = None     # C20 overlap harnesses: q is p + a0 inside the wrapper
+        self.cut_inv = None      # loop cutpoint invariant: fn(header, havoc_values, entry_values) -> z3 Bool (enc.cut_header)
+        self.cut_axioms = None   # fn(header, havoc_values, entry_values) -> z3 Bool: instances of spec-function definitions (assumed)
+        self.case_ens = []       # (name, [selector terms], fn(values) -> z3 goal | None): see ensures_by_cases
+        self.trip_loop = None    # ordinal of a top-level loop whose trip count is case-split (harness.verify_function)
+        self.encoder = None      # the encoder of the current case (for witness terms in lazy ensures)
+        self.splits = None       # optional fn() -> [(label, cond)]: exhaustive case split used for step/ensures obligations
 
     def region(self, name, writable=True, nonnull=True):
         base, size = {"p": (self.p, self.n), "q": (self.q, self.m)}[name]
@@ -91,6 +98,12 @@ class K:
 
     def ensures(self, name, cond):
         self.ens.append((name, cond))
+
+    def ensures_by_cases(self, name, selectors, goal_for):
+        """The feasible values of the selector terms are enumerated (solver, blocking clauses); for each value
+        tuple the goal goal_for(values) is proved under selectors == values.  goal_for returns None for a tuple
+        the contract does not allow at all (reported as refuted)."""
+        self.case_ens.append((name, selectors, goal_for))
 
     def forall_off(self, hint="a"):
         """A fresh offset that is universally quantified in `ensures` (the negation is solved)."""
@@ -172,8 +185,28 @@ def model_inputs(model, k, max_bytes=96):
     return d
 
 
-def verify_function(mod, fname, contract, params, unroll=0, prop_prefix="", only_safety=False):
-    """Returns list of core.Obligation for one wrapper."""
+def verify_function(mod, fname, contract, params, unroll=0, prop_prefix="", only_safety=False, div_fresh=False):
+    """Returns list of core.Obligation for one wrapper.  A contract may ask (k.trip_loop = ordinal) for path
+    splitting on the trip count of one loop: the wrapper is then verified once per trip count D = 0, 1, ...
+    under the case hypothesis produced by the encoder, until a case in which no back edge had to be excluded."""
+    k0 = K()
+    contract(k0, **params)
+    if k0.trip_loop is None:
+        return _verify_case(mod, fname, contract, params, unroll, prop_prefix, only_safety, div_fresh, None)
+    obs = []
+    D = 0
+    while True:
+        case_obs, more = _verify_case(mod, fname, contract, params, unroll, prop_prefix, only_safety, div_fresh, (k0.trip_loop, D))
+        obs += case_obs
+        if not more:
+            break
+        D += 1
+    obs.append(core.Obligation(prop_prefix + fname + ".trip-count-cases", core.PROVED, "llvc", 0.0,
+                               detail="path splitting on the trip count of loop #%d: cases 0..%d, the last one without an excluded back edge (exhaustive by construction)" % (k0.trip_loop, D)))
+    return obs
+
+
+def _verify_case(mod, fname, contract, params, unroll, prop_prefix, only_safety, div_fresh, trip):
     obs = []
     t_all = time.time()
     if fname not in mod.functions:
@@ -184,7 +217,14 @@ def verify_function(mod, fname, contract, params, unroll=0, prop_prefix="", only
     e = enc.Encoder(mod, unroll=unroll)
     e.externals = dict(getattr(contract, "externals", {}))
     e.externals["vprobe"] = _probe
+    e.externals["vcstr"] = _cstr_probe
     e.probes = {}
+    e.cstrs = {}
+    e.div_fresh = div_fresh
+    e.cut_inv = k.cut_inv
+    e.cut_axioms = k.cut_axioms
+    e.trip = trip
+    k.encoder = e
     e.regions = list(k.regions.values())
     # parameter regions are pairwise disjoint objects
     pre = list(k.req)
@@ -203,7 +243,10 @@ def verify_function(mod, fname, contract, params, unroll=0, prop_prefix="", only
         raise core.CheckerError("wrapper %s does not have the fixed 6-argument signature" % fname)
     mem0 = {"p": k.P0, "q": k.Q0}
     rv, mem_out, rc = e.encode(fn, args, mem0)
+    k.ens = [(nm, cond() if callable(cond) else cond) for (nm, cond) in k.ens]     # lazy ensures (may mention cut-state variables)
+    splits_raw = k.splits() if k.splits else []
     pre += e.assumptions
+    pre += e.trip_assumed
     if rv is None:
         rv = enc.bv(0, 64)
     if z3.is_bool(rv):
@@ -221,12 +264,14 @@ def verify_function(mod, fname, contract, params, unroll=0, prop_prefix="", only
             for (c, v) in reversed(sites[:-1]):
                 val = z3.If(c, v, val)
         subst += [(k._obs_c[i], cond), (k._obs_v[i], val)]
-    name0 = prop_prefix + fname
+    name0 = prop_prefix + fname + ("" if trip is None else "[trip=%d]" % trip[1])
     # cover
     r, s, dt = _solve(pre, Z3_MS)
     if r != z3.sat:
+        if trip is not None and r == z3.unsat:
+            return [], e.trip_cut      # no execution takes exactly this many iterations (e.g. the loop always runs at least once)
         obs.append(core.Obligation(name0 + ".cover", core.ERROR, "z3-5.1(py)", dt, detail="precondition not satisfiable: %s" % r))
-        return obs
+        return obs if trip is None else (obs, False)
     # safety in one query, then individually if needed
     viol = [(nm, kind, c) for (nm, kind, c) in e.safety if not z3.is_false(z3.simplify(c))]
     n_trivial = len(e.safety) - len(viol)
@@ -258,6 +303,20 @@ def verify_function(mod, fname, contract, params, unroll=0, prop_prefix="", only
             cnt = sum(1 for (_, kk, _) in e.safety if kk == kind)
             if cnt and not bad:
                 obs.append(core.Obligation("%s.%s[%d]" % (name0, kind, cnt), core.PROVED, "z3-5.1(py)", 0.0))
+    # loop cutpoints: the invariant holds on entry and is re-established by every back edge
+    splits = [(lab, z3.substitute(c, *subst)) for (lab, c) in splits_raw]
+    for hdr, cut in e.cuts.items():
+        goals = [("loop[%s].invariant-on-entry" % hdr, [cut["entry_reach"]], k.cut_inv(hdr, cut["entry"], cut["entry"]))]
+        for i, (cond, vals) in enumerate(cut["back"]):
+            goals.append(("loop[%s].invariant-preserved[back-edge %d]" % (hdr, i), [cond], k.cut_inv(hdr, vals, cut["entry"])))
+        if not cut["back"]:
+            obs.append(core.Obligation("%s.loop[%s].has-back-edge" % (name0, hdr), core.ERROR, "llvc", 0.0, detail="cut loop without reachable back edge"))
+        for (nm, hyps, goal) in goals:
+            obs += _prove_split(name0 + "." + nm, pre + hyps, goal, splits if "preserved" in nm else [], k, None)
+    if splits:
+        r, s, dt = _solve(pre + [z3.Not(z3.Or([c for (_, c) in splits]))] + [z3.Or([z3.And(cut["entry_reach"], k.cut_inv(h, cut["havoc"], cut["entry"])) for h, cut in e.cuts.items()] or [z3.BoolVal(True)])], Z3_MS)
+        obs.append(core.Obligation(name0 + ".case-split-exhaustive", core.PROVED if r == z3.unsat else (core.ERROR if r == z3.sat else core.UNKNOWN), "z3-5.1(py)", dt,
+                                   detail="the case split used for the step/ensures obligations covers every state satisfying the invariant"))
     # functional / frame obligations: one batched query first, individual queries only if it is not unsat
     ens = [] if only_safety else [(nm, z3.substitute(cond, *subst)) for (nm, cond) in k.ens]
     batched = False
@@ -288,6 +347,44 @@ def verify_function(mod, fname, contract, params, unroll=0, prop_prefix="", only
             obs.append(core.Obligation("%s.%s" % (name0, nm), core.REFUTED, "z3-5.1(py)", dt, model=md, detail="ensures %s" % nm))
         else:
             obs.append(core.Obligation("%s.%s" % (name0, nm), core.UNKNOWN, "z3-5.1(py)", dt, detail="ensures %s: %s" % (nm, s.reason_unknown())))
+    for (nm, sels, goal_for) in ([] if only_safety else k.case_ens):
+        sels = [z3.substitute(t, *subst) for t in sels]
+        found = []
+        while True:
+            block = [z3.Not(z3.And([t == v for t, v in zip(sels, vals)])) for vals in found]
+            r, s, dt = _solve(pre + [rc] + block, Z3_MS)
+            if r == z3.unsat:
+                break
+            if r != z3.sat or len(found) >= 32:
+                obs.append(core.Obligation("%s.%s{case enumeration}" % (name0, nm), core.UNKNOWN, "z3-5.1(py)", dt, detail="selector values not enumerated: %s" % r))
+                break
+            mdl = s.model()
+            vals = [mdl.eval(t, model_completion=True) for t in sels]
+            found.append(vals)
+            ints = [v.as_long() for v in vals]
+            goal = goal_for(ints)
+            cname = "%s.%s{%s}" % (name0, nm, ",".join(str(i) for i in ints))
+            if goal is None:
+                obs.append(core.Obligation(cname, core.REFUTED, "z3-5.1(py)", dt, model=model_inputs(small_model(pre + [rc] + block, k, Z3_MS) or mdl, k),
+                                           detail="selector values %s are not allowed by the contract" % ints))
+                continue
+            goal = z3.substitute(goal, *subst)
+            hyp = pre + [rc] + [t == v for t, v in zip(sels, vals)]
+            r2, s2, dt2 = _solve(hyp + [z3.Not(goal)], Z3_MS)
+            if r2 == z3.unsat:
+                obs.append(core.Obligation(cname, core.PROVED, "z3-5.1(py)", dt + dt2))
+            elif r2 == z3.sat:
+                m2 = small_model(hyp + [z3.Not(goal)], k, Z3_MS) or s2.model()
+                md = model_inputs(m2, k)
+                try:
+                    md["ret"] = m2.eval(rv, model_completion=True).as_long()
+                    md["observables"] = {str(i): (m2.eval(z3.substitute(k.outv(i), *subst), model_completion=True).as_long()
+                                                  if z3.is_true(m2.eval(z3.substitute(k.outc(i), *subst), model_completion=True)) else None) for i in sorted(k._obs_v)}
+                except Exception:
+                    pass
+                obs.append(core.Obligation(cname, core.REFUTED, "z3-5.1(py)", dt2, model=md, detail="ensures %s for selector values %s" % (nm, ints)))
+            else:
+                obs.append(core.Obligation(cname, core.UNKNOWN, "z3-5.1(py)", dt2, detail=s2.reason_unknown()))
     # the function must be able to return (no vacuous proof through an always-trapping body)
     # (a vacuity guard, not an obligation: `unknown` under load is tolerated, only a definite `unsat` is an error)
     r, s, dt = _solve(pre + [rc, z3.ULE(k.n, enc.bv(64, 64)), z3.ULE(k.m, enc.bv(64, 64))], min(Z3_MS, 20000))
@@ -295,7 +392,35 @@ def verify_function(mod, fname, contract, params, unroll=0, prop_prefix="", only
         r, s, dt = _solve(pre + [rc], Z3_MS)
         if r == z3.unsat:
             obs.append(core.Obligation(name0 + ".returns-cover", core.ERROR, "z3-5.1(py)", dt, detail="no input reaches a return (vacuous contract)"))
-    return obs
+    return obs if trip is None else (obs, e.trip_cut)
+
+
+def _prove_split(name, hyps, goal, splits, k, finish_model):
+    """Proves hyps => goal; when the direct query is not decided quickly and a case split is given, per case."""
+    r, s, dt = _solve(hyps + [z3.Not(goal)], 20000 if splits else Z3_MS)
+    if r == z3.unsat:
+        return [core.Obligation(name, core.PROVED, "z3-5.1(py)", dt)]
+    if r == z3.sat or not splits:
+        if r == z3.sat:
+            mdl = small_model(hyps + [z3.Not(goal)], k, Z3_MS) or s.model()
+            md = model_inputs(mdl, k)
+            md["cut-state"] = {str(d): str(mdl[d]) for d in mdl.decls() if d.name().startswith("cut!")}
+            return [core.Obligation(name, core.REFUTED, "z3-5.1(py)", dt, model=md, detail=name)]
+        return [core.Obligation(name, core.UNKNOWN, "z3-5.1(py)", dt, detail=s.reason_unknown())]
+    out = []
+    for (lab, c) in splits:
+        r, s, dt = _solve(hyps + [c, z3.Not(goal)], Z3_MS)
+        nm = "%s{%s}" % (name, lab)
+        if r == z3.unsat:
+            out.append(core.Obligation(nm, core.PROVED, "z3-5.1(py)", dt))
+        elif r == z3.sat:
+            mdl = small_model(hyps + [c, z3.Not(goal)], k, Z3_MS) or s.model()
+            md = model_inputs(mdl, k)
+            md["cut-state"] = {str(d): str(mdl[d]) for d in mdl.decls() if d.name().startswith("cut!")}
+            out.append(core.Obligation(nm, core.REFUTED, "z3-5.1(py)", dt, model=md, detail=nm))
+        else:
+            out.append(core.Obligation(nm, core.UNKNOWN, "z3-5.1(py)", dt, detail=s.reason_unknown()))
+    return out
 
 
 def _probe(encoder, args, m, r, where):
@@ -303,6 +428,16 @@ def _probe(encoder, args, m, r, where):
     if not z3.is_bv_value(ident):
         raise enc.EncError("vprobe id is not a constant at %s" % where)
     encoder.probes.setdefault(ident.as_long(), []).append((r, args[1]))
+    return None, m
+
+
+def _cstr_probe(encoder, args, m, r, where):
+    ident = z3.simplify(args[0])
+    ptr = args[1]
+    if not z3.is_bv_value(ident) or not isinstance(ptr, enc.Ptr) or ptr.region is None or ptr.alts:
+        raise enc.EncError("vcstr needs a constant id and a pointer with unique provenance at %s" % where)
+    m, arr = encoder.region_array(m, ptr.region)
+    encoder.cstrs.setdefault(ident.as_long(), []).append((r, ptr, arr))
     return None, m
 
 
@@ -335,7 +470,7 @@ def run_tu(job):
             contract = getattr(importlib.import_module(mname), fnname)
             try:
                 obs += verify_function(mod, name, contract, params, unroll=job.get("unroll", 0), prop_prefix=job.get("prefix", ""),
-                                       only_safety=job.get("only_safety", False))
+                                       only_safety=job.get("only_safety", False), div_fresh=job.get("div_fresh", False))
             except (enc.EncError, ir.IRError) as ex:
                 obs.append(core.Obligation(job.get("prefix", "") + name + ".encode", core.ERROR, "llvc", 0.0,
                                            detail="%s: %s" % (type(ex).__name__, ex)))
@@ -386,6 +521,7 @@ NATIVE_MAIN = r'''
 #include <cstdlib>
 static uint64_t g_obs[64]; static int g_set[64];
 extern "C" void vprobe(int id, uint64_t value) noexcept { if (id >= 0 && id < 64) { g_obs[id] = value; g_set[id] = 1; } }
+extern "C" void vcstr(int id, const char* s) noexcept { printf("cstr %%d %%s\n", id, s); }
 int main(int argc, char** argv) {
   // argv: n a0 a1 m pnull qnull, then n hex bytes, then m hex bytes
   size_t n = strtoull(argv[1], 0, 10); uint64_t a0 = strtoull(argv[2], 0, 10), a1 = strtoull(argv[3], 0, 10);
